@@ -180,12 +180,11 @@ int check_for_sequences(struct msa* msa)
         if(!msa){
                 ERROR_MSG("No sequences were found in the input files or standard input.");
         }
-        if(msa->numseq < 2){
-                if(msa->numseq == 0){
-                        ERROR_MSG("No sequences were found in the input files or standard input.");
-                }else if (msa->numseq == 1){
-                        ERROR_MSG("Only 1 sequence was found in the input files or standard input");
-                }
+        /* A single sequence is not an error here: more sources may follow
+           (kalign a.fa b.fa, or a file plus standard input). kalign_run()
+           refuses to align fewer than two sequences. */
+        if(msa->numseq == 0){
+                ERROR_MSG("No sequences were found in the input files or standard input.");
         }
         return OK;
 ERROR:
